@@ -1648,9 +1648,50 @@ fn run_c19(line: &str) -> String {
         let path = PATHS.iter().find(|(n, _)| Some(*n) == a[3].as_atom())?.1;
         let table = entries();
         let e = table.iter().find(|e| e.tag == tag)?;
-        (e.run)(&a[1], key, attr, opt, path)
+        let out = (e.run)(&a[1], key, attr, opt, path)?;
+        Some(match dbg_capture_selftest() {
+            Err(why) if !out.contains("\tFAIL:") => format!("{}\tFAIL:{}", out, why),
+            _ => out,
+        })
     })()
     .unwrap_or_else(|| "bad-case".into())
+}
+
+/// `emit::dbg!` promises Debug capture for every value it is given, in each of its call shapes: a bare expression, a
+/// hole of an explicit template, a hole whose value comes from a `key: expr` pair after the template, and an extra pair
+/// that is not a hole. Run once per process (the macro is hard-wired to the shared runtime, initialised here).
+fn dbg_capture_selftest() -> &'static Result<(), String> {
+    static RESULT: std::sync::OnceLock<Result<(), String>> = std::sync::OnceLock::new();
+    RESULT.get_or_init(|| {
+        let seen: std::sync::Arc<std::sync::Mutex<Vec<(String, String)>>> = Default::default();
+        let s2 = seen.clone();
+        let _ = emit::setup()
+            .emit_to(emit::emitter::from_fn(move |evt| {
+                let mut g = s2.lock().unwrap();
+                let _ = evt.props().for_each(|k, v| {
+                    g.push((k.get().to_string(), v.to_string()));
+                    std::ops::ControlFlow::Continue(())
+                });
+            }))
+            .try_init();
+        let (name, ratio, letter) = (String::from("a \"b\""), 1.0f64, 'r');
+        emit::dbg!(name);
+        emit::dbg!("hole {ratio}");
+        emit::dbg!("pair {who}", who: name);
+        emit::dbg!("extra {ratio}", letter);
+        let _ = emit::blocking_flush(std::time::Duration::from_secs(1));
+        let g = seen.lock().unwrap();
+        if g.is_empty() {
+            return Ok(()); // another stream of this process owns the shared runtime: nothing to observe here
+        }
+        let want = [("name", format!("{:?}", name)), ("ratio", format!("{:?}", ratio)), ("who", format!("{:?}", name)), ("letter", format!("{:?}", letter))];
+        for (k, w) in want {
+            if !g.iter().any(|(gk, gv)| gk == k && *gv == w) {
+                return Err(format!("dbg-capture-is-not-Debug({})", k));
+            }
+        }
+        Ok(())
+    })
 }
 
 fn gen_c19(rng: &mut Rng, tier: Tier, n: usize) -> Vec<String> {
